@@ -9,6 +9,7 @@ import (
 	"path/filepath"
 	"regexp"
 	"runtime/debug"
+	"runtime/pprof"
 	"sort"
 	"strings"
 	"time"
@@ -206,8 +207,14 @@ func main() {
 		setP     = flag.String("set", "", "override params: K=3,N=4")
 		budgetS  = flag.Int("budget", 0, "wall-clock budget per harness in seconds (0 = spec default)")
 	)
+	cpuprof := flag.String("cpuprofile", "", "write cpu profile")
 	flag.Parse()
 	debug.SetGCPercent(400)
+	if *cpuprof != "" {
+		f, _ := os.Create(*cpuprof)
+		pprof.StartCPUProfile(f)
+		defer pprof.StopCPUProfile()
+	}
 	seed := 0
 	if s := os.Getenv("VERIF_SEED"); s != "" {
 		fmt.Sscan(s, &seed)
@@ -343,6 +350,9 @@ func main() {
 		}
 	}
 	code := report(L, *id, *tier, seed, ps, results, time.Since(t0), *noNative, *verbose)
+	if *cpuprof != "" {
+		pprof.StopCPUProfile()
+	}
 	os.Exit(code)
 }
 
